@@ -418,8 +418,7 @@ def sum_chi2_ppf(x, weights=(0,1)):
     # A little clunky, but we want to handle x = 0.5, and x = [2, 3, 4]
     # correctly. So if x is a scalar, we record that fact so we can return a
     # scalar on output.
-    if numpy.isscalar(x):
-        scalar_input = True
+    scalar_input = numpy.isscalar(x)
     # Convert x into an array, so we can index it easily.
     x = numpy.atleast_1d(x)
     # Calculate total cdf of all chi^2 dists with dof > 1.
